@@ -160,18 +160,16 @@ def check_obligations(pid, props_files):
 
 # ------------------------------------------------------------------ correspondence
 def run_suite(pid, suite, tier, seed, fuzzing=False):
-    """Generate + run implementation + run model.  Returns (cases_path, impl_path, model_path, n)."""
-    wd = f"{WORK}/{pid}"
+    """Generate + run implementation + run model.  Returns (cases_path, impl_path, model_path).
+    The cfg(fuzzing) build writes into its own sub-directory."""
+    wd = f"{WORK}/{pid}" + ("/cfg_fuzzing" if fuzzing else "")
     os.makedirs(wd, exist_ok=True)
     hbin = HARNESS + ("/target-fuzzing/release/verif-harness" if fuzzing else "/target/release/verif-harness")
-    tag = suite + ("_fz" if fuzzing else "")
+    tag = suite
     rc, out, _ = sh([hbin, "gen", suite, tier, str(seed), wd], timeout=7200)
     if rc != 0:
         raise RuntimeError(f"harness failed on suite {suite}: {out[-2000:]}")
     cases, impl, model = f"{wd}/{suite}.cases", f"{wd}/{suite}.impl", f"{wd}/{suite}.model"
-    if fuzzing:
-        os.replace(impl, f"{wd}/{tag}.impl"); impl = f"{wd}/{tag}.impl"
-        model = f"{wd}/{tag}.model"
     # shard the model run over the cores
     lines = open(cases).read().split("\n")
     if lines and lines[-1] == "":
